@@ -279,6 +279,9 @@ func (p *parser) parseEventHandler() Node {
 	for !p.isAtEOL() {
 		p.assertToken(lexer.IDENT)
 		decl := p.parseTypedDecl()
+		if decl.Var.T == nil {
+			continue // invalid type, error already reported: do not bring an untyped parameter into scope
+		}
 		e.Params = append(e.Params, decl.Var)
 	}
 	p.recordComment(e)
@@ -459,6 +462,9 @@ func (p *parser) parseFuncDefSignature() *FuncDefStmt {
 	for !p.isAtEOL() && p.cur.TokenType() != lexer.DOT3 {
 		p.assertToken(lexer.IDENT)
 		decl := p.parseTypedDecl()
+		if decl.Var.T == nil {
+			continue // invalid type, error already reported: do not bring an untyped parameter into scope
+		}
 		fd.Params = append(fd.Params, decl.Var)
 	}
 	if p.cur.TokenType() == lexer.DOT3 {
